@@ -433,8 +433,9 @@ def user_only(case, names):
     """undefined names that are the user's own (a type-mapping target used only where the mapping put it)"""
     if case["lang"] == "python" and "datetime" in names:
         maps = case["cfg"].get("type_mappings", {})
-        if "datetime" in maps.values():
-            # typeshare's own use of `datetime` is the text of the two translation functions
+        if "datetime" in maps.values() and not any(py_datetime_imported(t, maps) for t in all_types(case["desc"])):
+            # typeshare's own use of `datetime` is the text of the two translation functions - and the translation of an
+            # unmapped OffsetDateTime, at any depth and in any position: then the name is typeshare's, not the user's
             return {"datetime"}
     return set()
 
